@@ -25,6 +25,7 @@ func VH_C20_bookkeeping() {
 	refs := []string{"r1", "r2"}
 	owners := []*Context{a, b}
 	var live [2][2]bool // [owner][ref]
+	var once [2][2]bool // the live job is a run-once job
 	L := vrtParam("ops", 3)
 	for i := 0; i < L; i++ {
 		o, r := vrtChoose(2), vrtChoose(2)
@@ -36,7 +37,7 @@ func VH_C20_bookkeeping() {
 			vrtAssume(d >= 0)
 			msg := &vhUserMsg{N: 10*o + r}
 			vrtAssert(owner.scheduler.Once(b.ref, d, msg, vivid.WithSchedulerReference(refs[r])) == nil, "once-ok")
-			live[o][r] = true
+			live[o][r], once[o][r] = true, true
 			tr, ok := w.quartz.Triggers[key].(*quartz.RunOnceTrigger)
 			vrtAssert(ok && tr.Delay == d, "once-registers-run-once-trigger-with-the-delay")
 			vrtReach("once")
@@ -44,7 +45,7 @@ func VH_C20_bookkeeping() {
 			d := time.Duration(vrtInt64())
 			vrtAssume(d > 0)
 			vrtAssert(owner.scheduler.Loop(b.ref, d, &vhUserMsg{N: 10*o + r}, vivid.WithSchedulerReference(refs[r])) == nil, "loop-ok")
-			live[o][r] = true
+			live[o][r], once[o][r] = true, false
 			tr, ok := w.quartz.Triggers[key].(*quartz.SimpleTrigger)
 			vrtAssert(ok && tr.Interval == d, "loop-registers-simple-trigger-with-the-interval")
 			vrtReach("loop")
@@ -73,23 +74,33 @@ func VH_C20_bookkeeping() {
 			}
 		}
 	}
-	// firing: every live job delivers its own original message to b, through b's mailbox
-	for oo := 0; oo < 2; oo++ {
-		for rr := 0; rr < 2; rr++ {
-			k := owners[oo].ref.GetPath() + ":" + refs[rr]
-			before := len(w.boxes[b].all)
-			seenBefore := len(ab.seen)
-			fired := w.quartz.Fire(k)
-			vrtAssert(fired == live[oo][rr], "only-live-jobs-can-fire")
-			if fired {
-				vrtAssert(len(w.boxes[b].all) == before+1, "fired-job-goes-through-the-mailbox")
-				w.run(50, "fire")
-				vrtAssert(len(ab.seen) == seenBefore+1, "fired-job-delivers-once")
-				u, ok := ab.seen[len(ab.seen)-1].(*vhUserMsg)
-				vrtAssert(ok && u.N == 10*oo+rr, "fired-job-carries-the-original-message")
-				vrtReach("fired")
-			} else {
-				vrtAssert(len(w.boxes[b].all) == before && len(w.rootBox.all) >= 0, "dead-job-delivers-nothing")
+	// firing, two instants in a row: every live job delivers its own original
+	// message to b through b's mailbox; a run-once job fires at the first instant
+	// only, a loop job at every instant
+	for round := 0; round < 2; round++ {
+		for oo := 0; oo < 2; oo++ {
+			for rr := 0; rr < 2; rr++ {
+				k := owners[oo].ref.GetPath() + ":" + refs[rr]
+				before := len(w.boxes[b].all)
+				seenBefore := len(ab.seen)
+				fired := w.quartz.Fire(k)
+				vrtAssert(fired == live[oo][rr], "only-live-jobs-can-fire")
+				if fired {
+					vrtAssert(len(w.boxes[b].all) == before+1, "fired-job-goes-through-the-mailbox")
+					w.run(50, "fire")
+					vrtAssert(len(ab.seen) == seenBefore+1, "fired-job-delivers-once")
+					u, ok := ab.seen[len(ab.seen)-1].(*vhUserMsg)
+					vrtAssert(ok && u.N == 10*oo+rr, "fired-job-carries-the-original-message")
+					vrtReach("fired")
+					if once[oo][rr] {
+						live[oo][rr] = false // expired with its only firing
+						vrtReach("once-expired")
+					} else if round == 1 {
+						vrtReach("loop-fired-again")
+					}
+				} else {
+					vrtAssert(len(w.boxes[b].all) == before && len(w.rootBox.all) >= 0, "dead-job-delivers-nothing")
+				}
 			}
 		}
 	}
@@ -129,4 +140,50 @@ func VH_C20_cron() {
 		vrtAssert(err == nil && len(w.quartz.Jobs) == 1, "valid-cron-registers")
 		vrtReach("accepted")
 	}
+}
+
+// VH_C20_schedule_while_stopping: jobs registered while the owner is already
+// in its kill / restart sequence (from its OnKill handler, or while handling a
+// child's OnKilled) die with the actor like any other job.
+func VH_C20_schedule_while_stopping() {
+	w := vhNewWorld()
+	ab := vhLogged("b")
+	b := w.spawn(w.root, "b", ab)
+	aa := vhLogged("a")
+	site := vrtChoose(2)
+	inner := aa.onMsg
+	aa.onMsg = func(ctx vivid.ActorContext, m vivid.Message) {
+		inner(ctx, m)
+		arm := false
+		switch k := m.(type) {
+		case *vivid.OnKill:
+			arm = site == 0
+		case *vivid.OnKilled:
+			arm = site == 1 && !k.Ref.Equals(ctx.Ref())
+		}
+		if arm {
+			_ = ctx.Scheduler().Once(b.ref, time.Second, &vhUserMsg{N: 1}, vivid.WithSchedulerReference("k1"))
+			_ = ctx.Scheduler().Loop(b.ref, time.Second, &vhUserMsg{N: 2}, vivid.WithSchedulerReference("k2"))
+			vrtReach("armed-while-stopping")
+		}
+	}
+	a := w.spawn(w.root, "a", aa)
+	w.spawn(a, "kid", vhLogged("kid"))
+	if vrtChoose(2) == 0 {
+		w.root.Kill(a.ref, vrtBool(), "x")
+		vrtReach("kill")
+	} else {
+		w.root.tell(true, a.ref, &RestartMessage{Reason: "r", Poison: vrtBool()})
+		vrtReach("restart")
+	}
+	w.run(400, "terminates")
+	for _, r := range []string{"k1", "k2"} {
+		key := a.ref.GetPath() + ":" + r
+		_, inQuartz := w.quartz.Jobs[key]
+		vrtAssert(!inQuartz, "jobs-armed-while-stopping-die-with-the-actor")
+		before := len(w.boxes[b].all)
+		w.quartz.Fire(key)
+		vrtAssert(len(w.boxes[b].all) == before, "nothing-fires-after-termination-or-restart")
+	}
+	vrtAssert(len(w.quartz.Jobs) == 0, "jobs-armed-while-stopping-die-with-the-actor")
 }
